@@ -273,6 +273,10 @@ func (c *Ctx) Callees(cc *ssa.CallCommon) []*ssa.Function {
 			return []*ssa.Function{f}
 		}
 	}
+	// local function variables (closures assigned once to a local, possibly captured)
+	if f := resolveFuncVar(cc.Value, 0); f != nil {
+		return []*ssa.Function{f}
+	}
 	// function values of a named module func type (functional options): every function literal whose
 	// enclosing function returns that named type
 	if nt, ok := cc.Value.Type().(*types.Named); ok {
@@ -692,4 +696,127 @@ func decodedFrom(al *ssa.Alloc) ssa.Value {
 		return src
 	}
 	return nil
+}
+
+// resolveFuncVar: v is (a load of) a local variable cell — possibly reached through closure free variables —
+// that is assigned exactly one function value; returns that function.
+func resolveFuncVar(v ssa.Value, d int) *ssa.Function {
+	if d > 4 {
+		return nil
+	}
+	if u, ok := v.(*ssa.UnOp); ok && u.Op == token.MUL {
+		v = u.X
+	} else {
+		return nil
+	}
+	// follow free variables up to the defining alloc
+	for {
+		fv, ok := v.(*ssa.FreeVar)
+		if !ok {
+			break
+		}
+		fn := fv.Parent()
+		par := fn.Parent()
+		if par == nil {
+			return nil
+		}
+		idx := -1
+		for i, x := range fn.FreeVars {
+			if x == fv {
+				idx = i
+			}
+		}
+		var bound ssa.Value
+		for _, b := range par.Blocks {
+			for _, in := range b.Instrs {
+				if mc, isMC := in.(*ssa.MakeClosure); isMC && mc.Fn == ssa.Value(fn) && idx >= 0 && idx < len(mc.Bindings) {
+					bound = mc.Bindings[idx]
+				}
+			}
+		}
+		if bound == nil {
+			return nil
+		}
+		v = bound
+	}
+	al, ok := v.(*ssa.Alloc)
+	if !ok {
+		return nil
+	}
+	var res *ssa.Function
+	n := 0
+	var scan func(g *ssa.Function)
+	scan = func(g *ssa.Function) {
+		for _, b := range g.Blocks {
+			for _, in := range b.Instrs {
+				st, isSt := in.(*ssa.Store)
+				if !isSt {
+					continue
+				}
+				// stores to the alloc itself or to a free variable bound to it
+				target := st.Addr
+				if fv, isFV := target.(*ssa.FreeVar); isFV {
+					if r := resolveFreeVarAlloc(fv); r != nil {
+						target = r
+					}
+				}
+				if target != ssa.Value(al) {
+					continue
+				}
+				if k, isK := st.Val.(*ssa.Const); isK && k.IsNil() {
+					continue
+				}
+				n++
+				switch fv := st.Val.(type) {
+				case *ssa.MakeClosure:
+					res, _ = fv.Fn.(*ssa.Function)
+				case *ssa.Function:
+					res = fv
+				}
+			}
+		}
+		for _, a := range g.AnonFuncs {
+			scan(a)
+		}
+	}
+	root := al.Parent()
+	scan(root)
+	if n == 1 {
+		return res
+	}
+	return nil
+}
+
+func resolveFreeVarAlloc(fv *ssa.FreeVar) ssa.Value {
+	var v ssa.Value = fv
+	for i := 0; i < 4; i++ {
+		f, ok := v.(*ssa.FreeVar)
+		if !ok {
+			return v
+		}
+		fn := f.Parent()
+		par := fn.Parent()
+		if par == nil {
+			return nil
+		}
+		idx := -1
+		for k, x := range fn.FreeVars {
+			if x == f {
+				idx = k
+			}
+		}
+		var bound ssa.Value
+		for _, b := range par.Blocks {
+			for _, in := range b.Instrs {
+				if mc, isMC := in.(*ssa.MakeClosure); isMC && mc.Fn == ssa.Value(fn) && idx >= 0 && idx < len(mc.Bindings) {
+					bound = mc.Bindings[idx]
+				}
+			}
+		}
+		if bound == nil {
+			return nil
+		}
+		v = bound
+	}
+	return v
 }
